@@ -111,11 +111,45 @@ def body_recursion(h):
     return [impl.interpreter.error_num]
 
 
+def body_duplicate_param(h):
+    """two parameters with the same name: the variable must still come back with its old value"""
+    prog = [b'10 DEF FNA%(X%,X%)=X% OR G%', b'20 R%=FNA%(A%,B%): E%=1']
+    impl, raws = _run(h, prog)
+    _unchanged(h, impl, raws)
+    h.require('completed', s_and(_geti(impl, b'E%') == 1, impl.interpreter.error_num == 0))
+    return [_geti(impl, b'R%')]
+
+
+def body_result_conversion(h):
+    """the body succeeds but the conversion of its value to the function type overflows"""
+    prog = [b'10 ON ERROR GOTO 100: DEF FNO%(X%)=X%+32767', b'20 R%=FNO%(A%): E%=1: END',
+            b'100 E%=ERR+100: RESUME 110', b'110 END']
+    impl, raws = _run(h, prog)
+    A = s16(raws[b'A%'])
+    _unchanged(h, impl, raws)
+    E = _geti(impl, b'E%')
+    h.require('overflow-trapped-with-variables-restored', E == ite(A > 0, 106, 1))
+    h.require('value', s_implies(A <= 0, _geti(impl, b'R%') == A + 32767))
+    return [E]
+
+
+def body_deftype_change(h):
+    """DEFINT between DEF FN and the call changes which variable an untyped parameter names"""
+    prog = [b'10 DEF FNT(X)=X+0: DEFINT X', b'20 R!=FNT(21): E%=1']
+    impl, raws = _run(h, prog)
+    _unchanged(h, impl, raws)
+    h.require('completed', s_and(_geti(impl, b'E%') == 1, impl.interpreter.error_num == 0))
+    return [_geti(impl, b'E%')]
+
+
 def cases(tier):
     return [Case('sum-two-params-and-global', body_sum, timeout_s=3000, max_paths=400000),
             Case('parameter-shadows-global', body_shadow, timeout_s=3000),
             Case('nested-functions', body_nested, timeout_s=3000, max_paths=400000),
             Case('error-inside-body', body_div, timeout_s=3000),
             Case('type-mismatch-argument', body_mismatch),
+            Case('duplicate-parameter', body_duplicate_param),
+            Case('result-conversion-overflow', body_result_conversion, timeout_s=3000),
+            Case('deftype-change-between-def-and-call', body_deftype_change),
             Case('self-recursion', body_recursion, params={'mutual': False}),
             Case('mutual-recursion', body_recursion, params={'mutual': True})]
